@@ -3,4 +3,6 @@ import TnVerif.Model.Tensor
 import TnVerif.Model.Arith
 import TnVerif.Model.Eval
 import TnVerif.Generated
+import TnVerif.Model.Format
+import TnVerif.Props.C01
 import TnVerif.Props.C02
